@@ -19,7 +19,7 @@ T2JV(v, ty, defs, o) ==
   ELSE IF v.t \in {T_I8, T_I16, T_I32} THEN TOk(IntX(v, o.u8))
   ELSE IF v.t = T_I64 THEN TOk(IF o.i2s THEN JX("intstr", v.b) ELSE JX("int", v.b))
   ELSE IF v.t = T_DBL THEN (IF IsNonFinite(v.b) THEN TErr("NonFinite") ELSE TOk(JX("dbl", v.b)))
-  ELSE IF v.t = T_STR THEN TOk(IF ty.n = "binary" /\ ~o.nob64 THEN JX("str", B64Enc(v.b)) ELSE JX("str", v.b))
+  ELSE IF v.t = T_STR THEN TOk(IF ty.n = "binary" /\ ~o.nob64 THEN JX("b64", B64Enc(v.b)) ELSE JX("str", v.b))
   ELSE IF v.t = T_STRUCT THEN T2JFields(v.f, defs[ty.n], defs, o, <<>>)
   ELSE IF v.t \in {T_LIST, T_SET} THEN
        (IF v.et # ty.a[1].t THEN TErr("Dismatch") ELSE T2JElems(v.e, ty.a[1], defs, o, <<>>))
